@@ -2,7 +2,22 @@
 --generate-info, volume_reader.nibabel_image_to_info,
 transform.matrix_as_compact_urlsafe_json) and RECORD (C16).
 No judging: floats are re-encoded as exact rationals, TLC (Trace_Affine)
-decides."""
+decides.
+
+Histories recorded here (every result is judged, none by this file):
+  * one file through the command line tool into an empty directory (src
+    "file") and through nibabel_image_to_info on a freshly loaded image (src
+    "api");
+  * the SAME loaded image object used again: a second nibabel_image_to_info
+    call with the sharding option toggled (src "api2"), then
+    store_nibabel_image_to_fullres_info into a fresh directory with the plan's
+    options (src "store");
+  * files whose header voxel size (pixdim) disagrees with the column norms of
+    the sform (plan["pixdim"], plan["qform"]);
+  * --generate-info run twice on ONE destination with two different volumes
+    (run_rerun_case), the destination holding, before the second run, the
+    pair of the first run / only its transform.json / only its
+    info_fullres.json."""
 import json
 import math
 import os
@@ -15,6 +30,8 @@ import numpy as np
 from . import vol_driver as vd
 
 MAX_DEN = 4096
+REACH = 131072    # case units (Affine!Reach): larger lengths are reported by name, not by value
+REACH_PURE = 1024  # the same for pure numbers (matrix entries)
 REL = Fraction(1, 10 ** 9)
 K = 1000          # case unit: K units per millimetre (micrometres)
 
@@ -64,9 +81,45 @@ def build_nifti(path, plan, data):
         aff[r, 3] = float(plan["a"][r])
     cls = nibabel.Nifti1Image if plan["nifti"] == 1 else nibabel.Nifti2Image
     img = cls(data, aff, dtype=data.dtype)
+    if plan.get("pixdim"):
+        # a header whose voxel size (pixdim) was not touched when the sform was
+        # edited: the sform stays THE affine of the file (sform code 2); the
+        # qform is either absent (code 0) or an axis-aligned "scanner" one
+        hdr = img.header
+        pix = [float(x) for x in plan["pixdim"]]
+        if plan.get("qform") == "scanner":
+            hdr.set_qform(np.diag(pix + [1.0]), code=1)
+        else:
+            hdr.set_qform(None, code=0)
+        zooms = list(hdr.get_zooms())
+        zooms[:3] = pix
+        hdr.set_zooms(zooms)
+        hdr.set_sform(aff, code=2)
+        img = cls(data, None, header=hdr, dtype=data.dtype)
     if plan.get("slope") is not None:
         img.header.set_slope_inter(plan["slope"], plan["inter"])
     nibabel.save(img, path)
+
+
+def check_file_affine(path, plan):
+    """harness precondition (not a verdict): the file written by build_nifti
+    carries the planned affine (its nearest binary64 values) - what nibabel
+    reports as img.affine - and, when asked for, the planned disagreeing pixdim"""
+    import nibabel
+
+    from . import tlc
+    img = nibabel.load(path)
+    aff = img.affine
+    for r in range(3):
+        for k in range(3):
+            if float(aff[r, k]) != float(plan["A"][r][k]):
+                raise tlc.MachineryError("file affine differs from the plan at (%d,%d)" % (r, k))
+        if float(aff[r, 3]) != float(plan["a"][r]):
+            raise tlc.MachineryError("file translation differs from the plan at %d" % r)
+    if plan.get("pixdim"):
+        z = img.header.get_zooms()[:3]
+        if [Fraction(float(x)) for x in z] != list(plan["pixdim"]):
+            raise tlc.MachineryError("file pixdim differs from the plan")
 
 
 def float32_exact(fr):
@@ -78,7 +131,7 @@ def float32_exact(fr):
 
 def observe(info, transform, vmin_mm):
     """re-encode what the tool produced (no comparison with any expectation)"""
-    o = {"ok": True, "nonrat": []}
+    o = {"ok": True, "nonrat": [], "hugeres": [], "huget": [], "hugeT": [], "hugebottom": []}
     sc = info["scales"][0]
     o["size"] = [int(v) if float(v).is_integer() else -1 for v in sc["size"]]
     nc = info["num_channels"]
@@ -97,6 +150,9 @@ def observe(info, transform, vmin_mm):
         if q is None:
             o["nonrat"].append("res%d" % k)
             q = Fraction(0)
+        if abs(q) >= REACH:
+            o["hugeres"].append("res%d" % k)
+            q = Fraction(0)
         res.append(q2(q))
     o["res"] = res
     T, t = [], []
@@ -108,11 +164,17 @@ def observe(info, transform, vmin_mm):
             if q is None:
                 o["nonrat"].append("T%d%d" % (r, k))
                 q = Fraction(0)
+            if abs(q) >= REACH_PURE:
+                o["hugeT"].append("T%d%d" % (r, k))
+                q = Fraction(0)
             row.append(q2(q))
         T.append(row)
         q = snap_len(M[r][3], floor_mm)
         if q is None:
             o["nonrat"].append("t%d" % r)
+            q = Fraction(0)
+        if abs(q) >= REACH:
+            o["huget"].append("t%d" % r)
             q = Fraction(0)
         t.append(q2(q))
     o["T"], o["t"] = T, t
@@ -121,6 +183,9 @@ def observe(info, transform, vmin_mm):
         q = snap(M[3][k], 1) if len(M) > 3 else None
         if q is None:
             o["nonrat"].append("bottom%d" % k)
+            q = Fraction(0)
+        if abs(q) >= REACH_PURE:
+            o["hugebottom"].append("bottom%d" % k)
             q = Fraction(0)
         bottom.append(q2(q))
     o["bottom"] = bottom
@@ -150,9 +215,65 @@ def data_facts(path, ignore_scaling):
     return {"lo": math.floor(lo), "hi": math.ceil(hi), "integer": integer}, f
 
 
+def cli_args(plan, nii, out):
+    """argv of volume-to-precomputed --generate-info, the equivalent `options`
+    of the Python API, and the sharding request [mb, sb, pb, enc] or None"""
+    argv = ["volume-to-precomputed", nii, out, "--generate-info"]
+    opts = {}
+    if plan.get("ignore_scaling"):
+        argv.append("--ignore-scaling")
+    sh = plan.get("sharding")
+    if sh:
+        argv += ["--sharding", "%d,%d,%d" % (sh[0], sh[1], sh[2])]
+        opts = api_opts(sh)
+        if sh[3] == "raw":
+            argv.append("--no-gzip")
+    return argv, opts, sh
+
+
+def api_opts(sh):
+    if not sh:
+        return {}
+    return {"sharding": "%d,%d,%d" % (sh[0], sh[1], sh[2]), "gzip": sh[3] == "gzip"}
+
+
+def req_of(sh):
+    """the sharding request one generation was given (part of its observation)"""
+    return {"given": bool(sh), "mb": sh[0] if sh else 0, "sb": sh[1] if sh else 0,
+            "pb": sh[2] if sh else 0, "enc": sh[3] if sh else "raw"}
+
+
+def toggled_sharding(plan, shape):
+    """the OTHER sharding choice for a second generation from the same image
+    object: none when the plan has one, else one derived from the shape"""
+    if plan.get("sharding"):
+        return None
+    return [shape[0] % 6, shape[1] % 6, shape[2] % 5, "gzip" if (shape[0] + shape[1]) % 2 else "raw"]
+
+
+def read_pair(out, vmin):
+    """re-encode the pair info_fullres.json + transform.json found in a directory"""
+    try:
+        with open(os.path.join(out, "info_fullres.json")) as f:
+            info = json.load(f)
+        with open(os.path.join(out, "transform.json")) as f:
+            tr = json.load(f)
+        return observe(info, tr, vmin)
+    except Exception as e:
+        return {"ok": False, "why": type(e).__name__}
+
+
+def vol_record(plan, dfacts, ffacts):
+    return {"layout": ffacts["layout"], "shape": ffacts["shape"], "K": [K, 1],
+            "A": [[q2(plan["A"][r][k]) for k in range(3)] for r in range(3)],
+            "a": [q2(plan["a"][r]) for r in range(3)], "data": dfacts}
+
+
 def run_info_case(work, plan, data):
-    """One file through both routes; returns (case, res)."""
+    """One file through both routes, then the loaded image object used again;
+    returns (case, res, transform of the first API call)."""
     import nibabel
+    from neuroglancer_scripts import accessor as ngacc
     from neuroglancer_scripts import volume_reader
     from neuroglancer_scripts.scripts import volume_to_precomputed as v2p
     d = tempfile.mkdtemp(prefix="aff_", dir=work)
@@ -161,32 +282,18 @@ def run_info_case(work, plan, data):
         out = os.path.join(d, "out")
         os.makedirs(out)
         build_nifti(nii, plan, data)
+        if plan.get("pixdim"):
+            check_file_affine(nii, plan)
         dfacts, ffacts = data_facts(nii, plan.get("ignore_scaling", False))
-        argv = ["volume-to-precomputed", nii, out, "--generate-info"]
-        opts = {}
-        if plan.get("ignore_scaling"):
-            argv.append("--ignore-scaling")
-        sh = plan.get("sharding")
-        if sh:
-            argv += ["--sharding", "%d,%d,%d" % (sh[0], sh[1], sh[2])]
-            opts["sharding"] = "%d,%d,%d" % (sh[0], sh[1], sh[2])
-            opts["gzip"] = sh[3] == "gzip"
-            if sh[3] == "raw":
-                argv.append("--no-gzip")
+        argv, opts, sh = cli_args(plan, nii, out)
         res = vd.run_main(v2p.main, argv, record=False)
         vmin = min(plan["vs"])
         obs = []
-        o = {"ok": False}
-        try:
-            with open(os.path.join(out, "info_fullres.json")) as f:
-                info = json.load(f)
-            with open(os.path.join(out, "transform.json")) as f:
-                tr = json.load(f)
-            o = observe(info, tr, vmin)
-        except Exception as e:
-            o = {"ok": False, "why": type(e).__name__}
+        o = read_pair(out, vmin)
         o["src"] = "file"
+        o["req"] = req_of(sh)
         obs.append(o)
+        img = None
         try:
             with vd.silenced():
                 img = nibabel.load(nii)
@@ -198,17 +305,83 @@ def run_info_case(work, plan, data):
             o2 = {"ok": False, "why": type(e).__name__}
             compact_src = None
         o2["src"] = "api"
+        o2["req"] = req_of(sh)
         obs.append(o2)
-        case = {"kind": "info", "layout": ffacts["layout"], "shape": ffacts["shape"],
-                "K": [K, 1],
-                "A": [[q2(plan["A"][r][k]) for k in range(3)] for r in range(3)],
-                "a": [q2(plan["a"][r]) for r in range(3)],
-                "data": dfacts,
-                "sharding": {"given": bool(sh), "mb": sh[0] if sh else 0, "sb": sh[1] if sh else 0,
-                             "pb": sh[2] if sh else 0, "enc": sh[3] if sh else "raw"},
-                "run": {"outcome": res["outcome"], "exit": res["exit"]},
-                "obs": obs}
+        if img is not None:
+            # the same loaded image object, used again (history of length 3 on
+            # one object): other sharding choice, then the storing function
+            sh2 = toggled_sharding(plan, ffacts["shape"])
+            try:
+                with vd.silenced():
+                    fi, jt, _, _ = volume_reader.nibabel_image_to_info(
+                        img, ignore_scaling=bool(plan.get("ignore_scaling")), options=api_opts(sh2))
+                o3 = observe(json.loads(fi), [[float(x) for x in row] for row in jt], vmin)
+            except Exception as e:
+                o3 = {"ok": False, "why": type(e).__name__}
+            o3["src"] = "api2"
+            o3["req"] = req_of(sh2)
+            obs.append(o3)
+            out2 = os.path.join(d, "out2")
+            os.makedirs(out2)
+            try:
+                with vd.silenced():
+                    acc = ngacc.get_accessor_for_url(out2, accessor_options=opts)
+                    volume_reader.store_nibabel_image_to_fullres_info(
+                        img, acc, ignore_scaling=bool(plan.get("ignore_scaling")), options=opts)
+                o4 = read_pair(out2, vmin)
+            except Exception as e:
+                o4 = {"ok": False, "why": type(e).__name__}
+            o4["src"] = "store"
+            o4["req"] = req_of(sh)
+            obs.append(o4)
+        case = dict(vol_record(plan, dfacts, ffacts), kind="info",
+                    sharding=req_of(sh),
+                    run={"outcome": res["outcome"], "exit": res["exit"]},
+                    obs=obs)
         return case, res, compact_src
+    finally:
+        shutil.rmtree(d, ignore_errors=True)
+
+
+PRE_STATES = ("pair", "transform_only", "info_only")
+
+
+def run_rerun_case(work, plan1, data1, plan2, data2, pre):
+    """--generate-info twice on ONE destination directory with two volumes.
+    `pre` = what the destination holds before the second run: the "pair" left
+    by the first run, "transform_only" (info_fullres.json removed) or
+    "info_only" (transform.json removed).  Returns (case, [res1, res2])."""
+    from neuroglancer_scripts.scripts import volume_to_precomputed as v2p
+    d = tempfile.mkdtemp(prefix="rerun_", dir=work)
+    try:
+        out = os.path.join(d, "out")
+        os.makedirs(out)
+        vmin = min(min(plan1["vs"]), min(plan2["vs"]))
+        steps, results = [], []
+        for k, (plan, data) in enumerate(((plan1, data1), (plan2, data2))):
+            nii = os.path.join(d, "v%d.nii" % (k + 1))
+            build_nifti(nii, plan, data)
+            check_file_affine(nii, plan)
+            dfacts, ffacts = data_facts(nii, plan.get("ignore_scaling", False))
+            argv, _, sh = cli_args(plan, nii, out)
+            if k == 1:
+                if pre == "transform_only":
+                    os.remove(os.path.join(out, "info_fullres.json"))
+                elif pre == "info_only":
+                    os.remove(os.path.join(out, "transform.json"))
+            res = vd.run_main(v2p.main, argv, record=False)
+            o = read_pair(out, vmin)
+            o["src"] = "file"
+            o["req"] = req_of(sh)
+            steps.append({"vol": vol_record(plan, dfacts, ffacts), "req": req_of(sh),
+                          "run": {"outcome": res["outcome"], "exit": res["exit"]}, "obs": o})
+            results.append(res)
+            if k == 0 and not o.get("ok"):
+                break
+        if len(steps) == 1:          # the first generation already failed: judged as such
+            steps.append(steps[0])
+            results.append(results[0])
+        return {"kind": "rerun", "pre": pre, "first": steps[0], "second": steps[1]}, results
     finally:
         shutil.rmtree(d, ignore_errors=True)
 
